@@ -5,7 +5,7 @@ import json, os, shutil, subprocess, sys, time
 ROOT = os.path.dirname(os.path.dirname(os.path.abspath(__file__)))
 src_repo = sys.argv[1]
 out = sys.argv[2]
-ids = sys.argv[3:] or sorted(os.listdir(os.path.join(ROOT, "seeded")))
+ids = sys.argv[3:] or sorted(os.listdir(os.path.join(ROOT, "seeded")), key=lambda x: (x.startswith("own_"), x))
 PROPS = [f"C{i:02d}" for i in range(1, 21)]
 scratch = os.environ.get("MATRIX_SCRATCH", "/tmp/mx")
 os.makedirs(scratch, exist_ok=True)
@@ -29,6 +29,10 @@ for sid in ids:
     env = dict(os.environ, VERIF_REPO=repo, VERIF_STAGE=os.path.join(scratch, "stage"), VERIF_SEED="0")
     row = {}
     t0 = time.time()
+    # one parallel build of every harness binary against the patched crate (each check's own build is then a no-op)
+    subprocess.run([os.path.join(ROOT, "check"), "C06", "--tier", "quick"], cwd=ROOT, env=env, capture_output=True, text=True)
+    stage = env["VERIF_STAGE"]
+    subprocess.run(["cargo", "build", "--release", "--bins"], cwd=stage, env=dict(env, CARGO_NET_OFFLINE="true"), capture_output=True, text=True)
     for pid in PROPS:
         q = subprocess.run([os.path.join(ROOT, "check"), pid, "--tier", "quick"], cwd=ROOT, env=env, capture_output=True, text=True)
         first = next((l for l in q.stderr.splitlines() if "failure:" in l), "")
